@@ -33,7 +33,8 @@ type outcome struct {
 // rigs[0] serves with martian's own connection loop (production), rigs[1] with
 // martian's http.Handler on net/http's server (config TestingHTTPHandler).
 // rigs[2] is like rigs[0] but configured with a request ReadTimeout (readTimeoutMs).
-type rigSet [3]*proxyRig
+// rigs[3] is like rigs[0] but its transport hands 101 bodies on through a recording wrapper.
+type rigSet [4]*proxyRig
 
 const (
 	readTimeoutMs    = 600
@@ -49,6 +50,9 @@ func runScenario(rigs rigSet, p Params) outcome {
 	}
 	if p.ReadTimeoutMs > 0 {
 		rig = rigs[2]
+	}
+	if p.BodyObs {
+		rig = rigs[3]
 	}
 	t0 := time.Now()
 	sc := newScenario(p)
@@ -239,8 +243,10 @@ func genOne(r *rng.R, idx int, seed uint64, mode string, gated, concrete bool, t
 	} else if mode != "upgradetls" && r.Intn(2) == 0 {
 		p.HeadVariant = 1 + r.Intn(5)
 	}
+	// the copier's reads of the 101 body observed through the recording transport wrapper
+	p.BodyObs = mode == "upgrade" && gated && !p.ViaProxy && r.Intn(2) == 0
 	// one in six through martian's http.Handler on net/http's server (Hijack path of proxy_handler.go)
-	p.Handler = r.Intn(6) == 0
+	p.Handler = r.Intn(6) == 0 && !p.BodyObs
 	return p
 }
 
@@ -489,8 +495,8 @@ func main() {
 	flag.Parse()
 
 	var rig rigSet
-	for i, h := range []bool{false, true, false} {
-		r, err := startProxy(h, i == 2)
+	for i, h := range []bool{false, true, false, false} {
+		r, err := startProxy(h, i == 2, i == 3)
 		if err != nil {
 			fmt.Fprintln(os.Stderr, "starting proxy:", err)
 			os.Exit(2)
@@ -669,6 +675,9 @@ func main() {
 		dist["order:"+p.Order]++
 		if p.Handler {
 			dist["via_http_handler"]++
+		}
+		if p.BodyObs {
+			dist["upgrade_body_reads_observed"]++
 		}
 		if p.ReadTimeoutMs > 0 {
 			dist["tunnel_older_than_read_write_idle_timeouts"]++
